@@ -2,7 +2,7 @@
    patterns (gen/FurlGen.v). *)
 From Coq Require Import ZArith NArith List String Bool Lia.
 Import ListNotations.
-Require Import Verif.lib.PyLite Verif.lib.Regex Verif.lib.RegexProofs Verif.gen.FurlGen Verif.lib.Utf8 Verif.lib.Furl.
+Require Import Verif.lib.PyLite Verif.lib.Regex Verif.lib.RegexProofs Verif.lib.FurlPrim Verif.gen.FurlGen Verif.lib.Utf8 Verif.lib.Furl.
 Require Import Verif.lib.Connector Verif.lib.ConnectorProofs.
 Local Open Scope Z_scope.
 
@@ -345,10 +345,10 @@ Theorem hint_total_gen : forall pops handlers nonpublic loc,
   Forall (fun h => handler_ok pops (snd h)) handlers ->
   endpoint_or_invalid (get_endpoint_gen pops handlers nonpublic loc).
 Proof.
-  intros pops handlers nonpublic loc HF. unfold get_endpoint_gen.
+  intros pops handlers nonpublic loc HF. unfold get_endpoint_gen, get_endpoint_shape.
   destruct (convert_legacy_total loc) as [h Hh]. rewrite Hh.
-  destruct (negb (zmem HINT_TYPE_SEP h)); [right; reflexivity|].
-  destruct (lookup_handler (take_until HINT_TYPE_SEP h) handlers) as [kd|] eqn:L; [|right; reflexivity].
+  repeat match goal with |- context [zmem ?x h] => destruct (zmem x h) end; try (right; reflexivity).
+  match goal with |- context [lookup_handler ?t handlers] => destruct (lookup_handler t handlers) as [kd|] eqn:L end; [|right; reflexivity].
   apply handler_total. apply lookup_handler_in in L as [n Hn].
   rewrite Forall_forall in HF. apply (HF (n, kd) Hn).
 Qed.
@@ -368,11 +368,12 @@ Theorem hint_exception_origin : forall pops handlers nonpublic loc e,
                   lookup_handler (take_until HINT_TYPE_SEP hint) handlers = Some kd /\
                   hint_to_endpoint_gen pops nonpublic kd hint = Exc e.
 Proof.
-  intros pops handlers nonpublic loc e. unfold get_endpoint_gen.
+  intros pops handlers nonpublic loc e. unfold get_endpoint_gen, get_endpoint_shape.
   destruct (convert_legacy_total loc) as [h Hh]. rewrite Hh.
-  destruct (negb (zmem HINT_TYPE_SEP h)); [intros H; inversion H; auto|].
-  destruct (lookup_handler (take_until HINT_TYPE_SEP h) handlers) as [kd|] eqn:L; [|intros H; inversion H; auto].
-  intros H. right. exists h, kd. auto.
+  repeat match goal with |- context [zmem ?x h] => destruct (zmem x h) end; try (intros H; inversion H; auto; fail).
+  match goal with |- context [lookup_handler ?t handlers] => destruct (lookup_handler t handlers) as [kd|] eqn:L end;
+    [|intros H; inversion H; auto].
+  intros H. right. exists h, kd. split; [reflexivity|]. split; [exact L | exact H].
 Qed.
 
 (* ... and of foolscap's own handlers only i2p-with-an-unpopped-default-port can do that, with TypeError *)
